@@ -380,6 +380,12 @@ impl Check for C07 {
             batch.push(Case::new(format!("print(\"a\")\n{{\n{{\n{}}}\n}}\nprint(\"b\")\n", j), 3, "top-level jump in blocks".to_string()));
             batch.push(Case::new(format!("print(\"a\")\nif true {{\n{}}}\nprint(\"b\")\n", j), 3, "top-level jump in if".to_string()));
         }
+        // conditions are evaluated lazily, in order, each at most once per decision
+        for c in super::evalorder::cases(3) {
+            if c.meta.contains("`if ") || c.meta.contains("`while ") || c.meta.contains("`for ") || c.meta.contains("&&") || c.meta.contains("||") {
+                batch.push(c);
+            }
+        }
         flush(ctx, &mut batch, self)?;
         ctx.guard("every construct x jump kind pair occurred", seen_pairs.len() >= 13 * 3);
         ctx.extra.insert(
